@@ -340,6 +340,17 @@ pub async fn quiet_checks(world: &WorldRef, hist: &HistoryRef) -> Value {
                        "log_first": cur.raft_log.first_entry_id(), "log_last": cur.raft_log.last_entry_id(),
                        "has_snapshot_meta": n.sm_img.lock().unwrap().snapshot_meta.is_some()}),
             );
+            // C33 progress half: the peer is stuck behind the leader's purge boundary
+            let leader_first = w.nodes.get(&lid).and_then(|n| n.as_ref()).and_then(|n| n.cur.as_ref()).map(|c| c.raft_log.first_entry_id()).unwrap_or(0);
+            if leader_first > cur.raft_log.last_entry_id() + 1 {
+                oracle.lock().unwrap().violate(
+                    "C33",
+                    "peer_stuck_behind_purge_boundary",
+                    json!({"node": id, "leader": lid, "leader_log_first": leader_first, "peer_log_last": cur.raft_log.last_entry_id(),
+                           "peer_applied": applied, "commit": commit, "peer_restarts": n.inc_counter - 1,
+                           "lost_acknowledged_entries": lost_acked}),
+                );
+            }
         }
     }
     out["commit"] = json!(commit);
